@@ -113,15 +113,33 @@ func Load(dir string) (*Engine, error) {
 	if err != nil || os.Getenv("ALLIANCECHECK_NOINLINE") != "" {
 		return e, err
 	}
+	overlay := map[string][]byte{}
+	var sigNotes []string
+	if ov, nts := normaliseSignatures(e.Pkgs, readSource(overlay)); len(ov) > 0 {
+		if d := os.Getenv("ALLIANCECHECK_DEBUG_INLINE"); strings.HasPrefix(d, "/") {
+			for k, v := range ov {
+				_ = os.WriteFile(filepath.Join(d, "sig_"+filepath.Base(k)), v, 0o644)
+			}
+		}
+		if e2, err2 := loadOverlay(dir, ov); err2 == nil {
+			e = e2
+			overlay = ov
+			sigNotes = nts
+		} else {
+			sigNotes = append(nts, "signature normalisation abandoned: "+strings.SplitN(err2.Error(), "\n", 3)[0])
+		}
+	} else {
+		sigNotes = nts
+	}
 	funcRenames = detectRenames(e.Pkgs)
 	if len(funcRenames) > 0 {
 		// keys are computed while loading: load again with the rename table in place
-		if e2, err2 := loadOverlay(dir, nil); err2 == nil {
+		if e2, err2 := loadOverlay(dir, overlay); err2 == nil {
 			e = e2
 		}
 	}
-	overlay := map[string][]byte{}
 	var inlined, notes []string
+	notes = append(notes, sigNotes...)
 	cur := e
 	for round := 0; round < 3; round++ {
 		ov, done, nts := inlineNewHelpers(cur.Pkgs, readSource(overlay))
